@@ -132,3 +132,43 @@ def signed_min_model(sch, t, v):
     if k == "opt" and v is not None:
         return signed_min_model(sch, t[1], v)
     return v, 0
+
+
+def address_reuse_history(run, judge, rounds):
+    """One process handles a long sequence of DIFFERENT schema objects whose declarations share their
+    names but not their widths; each object is dropped and collected before the next one is created,
+    so CPython hands addresses out again (anything remembered per id(schema) or per type name from an
+    earlier object then meets a different schema).  judge(fcp, sch, struct, value, text, sig) per case."""
+    import gc
+
+    r = run.rng_ns("codec", "address-reuse", run.shard)
+    seen = set()
+    reused = 0
+    maxes = [1, 3, 200, 70000, 5, 255, 256, 2]
+    widths = [3, 9, 17, 1, 33, 8]
+    for k in range(rounds):
+        mx = maxes[k % len(maxes)]
+        w = widths[k % len(widths)]
+        decls = [
+            shapes.mk_enum("Mode", mx),
+            shapes.mk_struct("Inner", [("p", 0, ("u", w)), ("m", 1, ("enum", "Mode"))]),
+            shapes.mk_struct("Frame", [("a", 0, ("u", 3)), ("m", 1, ("enum", "Mode")), ("n", 2, ("struct", "Inner")),
+                                       ("l", 3, ("dyn", ("enum", "Mode"))), ("z", 4, ("i", 5))]),
+        ]
+        text = S.print_schema(decls)
+        res = parse(text)
+        if res.is_err():
+            run.violation("front end rejected a well-formed codec schema: %r" % (res.err(),), {"schema": text})
+            return
+        fcp = res.unwrap()
+        if id(fcp) in seen:
+            reused += 1
+        seen.add(id(fcp))
+        sch = S.Sch(decls)
+        for v in V.struct_values(r, sch, "Frame", 1, {})[-2:]:
+            judge(fcp, sch, "Frame", v, text, "address-reuse|enum max %d|u%d" % (mx, w))
+        del fcp, res
+        gc.collect()
+    run.count("schema_objects_in_sequence", rounds)
+    run.count("schema_objects_at_a_reused_address", reused)
+
